@@ -72,6 +72,9 @@ type inputCoercionForListVisitor struct {
 
 func (i *inputCoercionForListVisitor) EnterDocument(operation, definition *ast.Document) {
 	i.operation, i.definition = operation, definition
+	// the path is normally emptied when a variable definition is left; a walk that stopped inside
+	// one (invalid value) must not leave its path to the next document processed by this instance
+	i.query = i.query[:0]
 }
 
 func (i *inputCoercionForListVisitor) EnterOperationDefinition(ref int) {
